@@ -61,7 +61,7 @@ def jobs(tier, seed):
             for d in dims: n *= d
             for t in (2, 4, -1):
                 kw = dict(('ex_d%d' % i, d) for i, d in enumerate(dims))
-                J(P=1, C=0, S=1, F=1, order=k % 3, ex_group=0, ex_type=t, ex_ndim=rank, ex_n=n, ex_nlen=2, ex_dlen=k % 2, ex_slen=1 + k % 2, **kw); k += 1
+                J(P=1, C=0, S=1, F=1, order=k % 3, ex_group=0, ex_type=t, ex_ndim=rank, ex_n=n, ex_nlen=2, ex_dlen=k % 2, ex_slen=1 + k % 2, **kw); out[-1]['sweep'] = True; k += 1
     # analog-only content without a POINT:RATE (one sub-frame per frame)
     for order in (0, 1, 2): J(P=0, C=2, S=1, F=2, order=order, norate=1)
     # alignment sweep: the parameter section length goes through all 512 residues modulo the block size (0.3 s per save/load);
